@@ -209,6 +209,16 @@ def run(m, rep, tier):
         l10.undecided('sweep', 'no function advancing the sweep index found')
     for g in hosts:
         check_sweep_steps(m, g, set(roles.names('cleaner')), l10)
+    # ... and it never jumps: the only other value it is given is 0 (a new rehash starts, the table is reset)
+    for g in mod.defined():
+        for s_ in g.all_insts():
+            if s_.op == 'store' and fld(g, s_) == 'bucket.rh.clean' and not _is_sweep_step(g, s_) and const_int(s_.o[0]) != 0:
+                if is_load_of(g, strip_bitcasts(g, s_.o[0]) if isinstance(s_.o[0], str) else s_.o[0], 'bucket.rh.clean'):
+                    continue            # the other table's index, member by member (swap; completeness is L9's business)
+                if _local_sweep_cursor(g, s_.o[0]):
+                    continue            # the skip loop run on a local copy of the index and stored back once
+                l10.violation(g.name + ':sweep-jump', 'the sweep index is set at %s to a value that is neither 0 nor its own value + 1: the buckets it jumps over are '
+                              'taken for clean by the completion test without having been stamped' % s_.loc(), floc(m, g), {})
 
     # ---- L11: keys are never narrowed -------------------------------------------------------
     l11 = rep.rule('L11', 'a key (size_t) is never narrowed on its way to the lookup, the comparison or the node', floor=3)
@@ -246,6 +256,56 @@ def _is_sweep_step(f, s):
         return False
     base, step = unit_step(f, s.o[0])
     return step == 1 and is_load_of(f, base, 'bucket.rh.clean')
+
+
+def _local_sweep_cursor(f, v):
+    """v is the sweep index advanced in a local: a merge of the stored index (a load of rh.clean) and of `c + 1` for members c
+    of the same merge, each increment made where bucket.at[c] is known to carry the table's stamp"""
+    pv = Prover(f)
+    subs = {g_.ref: idx for g_, idx in at_subscripts(f)}
+    family, leaves, work = set(), [], [strip_bitcasts(f, v) if isinstance(v, str) else v]
+    while work:
+        r = work.pop()
+        i = f.get(r) if isinstance(r, str) else None
+        if i is not None and i.op == 'phi':
+            if r not in family:
+                family.add(r)
+                work.extend(i.o)
+        else:
+            leaves.append(r)
+    if not family:
+        return False
+
+    def core(x):
+        i = f.get(x) if isinstance(x, str) else None
+        while i is not None and i.op in ('zext', 'trunc', 'bitcast') and isinstance(i.o[0], str):
+            x = i.o[0]
+            i = f.get(x)
+        return x
+    for r in leaves:
+        if is_load_of(f, r, 'bucket.rh.clean'):
+            continue
+        base, step = unit_step(f, r) if isinstance(r, str) else (None, 0)
+        if step != 1 or base not in family:
+            return False
+        ok = False
+        for (op, x, y) in pv.facts_at(f.get(r)):
+            if op != 'eq':
+                continue
+            for a, b in ((core(x), core(y)), (core(y), core(x))):
+                ai = f.get(a) if isinstance(a, str) else None
+                if ai is None or ai.op != 'load' or not is_load_of(f, b, 'bucket.cst'):
+                    continue
+                if resolve_addr(f, ai.o[0]).fsteps[-1:] != (('cstl_hash_bucket', 'cst'),):
+                    continue
+                g_ = f.get(ai.o[0]) if isinstance(ai.o[0], str) else None
+                while g_ is not None and g_.op in ('getelementptr', 'bitcast'):
+                    if g_.ref in subs and core(subs[g_.ref]) == base:
+                        ok = True
+                    g_ = f.get(g_.o[0]) if isinstance(g_.o[0], str) else None
+        if not ok:
+            return False
+    return True
 
 
 def check_sweep_steps(m, f, cleaners, rule):
